@@ -118,6 +118,14 @@ Theorem C20_noES_replacement_nontermination_refuted : forall eps bags fuel,
 Proof. exact nonterm_residual. Qed.
 Print Assumptions C20_noES_replacement_nontermination_refuted.
 
+(* the hypothesis eps_tol > 0 of the early-stopping class is needed: with eps_tol = 0 and replacement a loss that keeps
+   decreasing (1 / size of the multiset; 2 candidates, k = 3) is followed for ever *)
+Theorem C20_eps0_nontermination_refuted : forall bags fuel,
+  greedy true (mkOpts 3 2 None 0 true true false) 2 [0; 1] (1 # 2)
+         (fun ms => 1 # Pos.of_nat (length ms)) bags fuel = OutOfFuel.
+Proof. exact nonterm_eps0. Qed.
+Print Assumptions C20_eps0_nontermination_refuted.
+
 (* ---- the oracles applied to the implementation's outputs decide the specifications ---- *)
 Theorem C20_oracle_topk : forall ls k out, ok_topk ls k out = true <-> TopkSpec ls k out.
 Proof. exact ok_topk_spec. Qed.
